@@ -874,6 +874,9 @@ def t_zip(args, kw, node):
             items = [Tup([a.items[i] for a in args]) for i in range(n)]
             tail = Tup([a.tail for a in args]) if args[0].tail is not None else None
             return Lst(items, tail)
+    if args and all((isinstance(a, Deg) and not isinstance(a, IdxV)) or (isinstance(a, Lst) and a.items) for a in args):
+        first = Tup([a.items[0] if isinstance(a, Lst) else elem(a) for a in args])
+        return Lst([first], Tup([elem(a) for a in args]))                   # rows of arrays: at least one
     return Lst([], Tup([elem(a) for a in args]))
 
 
@@ -883,6 +886,8 @@ def t_enumerate(args, kw, node):
         return Lst([Tup([Cst(i), x]) for i, x in enumerate(a.items)])
     if isinstance(a, Lst) and a.items:
         return Lst([Tup([Cst(0), a.items[0]])], Tup([IdxV(1), elem(Lst(a.items[1:], a.tail))]))
+    if isinstance(a, Deg) and not isinstance(a, IdxV):
+        return Lst([Tup([Cst(0), elem(a)])], Tup([IdxV(1), elem(a)]))      # rows of an array: at least one
     return Lst([], Tup([Deg({()}, 0), elem(a)]))
 
 
@@ -1588,6 +1593,9 @@ def _exec_loop(s, fr):
             seq, tail = list(it.items), it.tail
         elif isinstance(it, Dct):
             seq, tail = [Cst(k) for k in it.d], None
+        elif isinstance(it, Deg) and not isinstance(it, IdxV):
+            # rows of an array: at least one (as for range(X.shape[k]), whose first index is definite)
+            seq, tail = [elem(it)], elem(it)
         else:
             seq, tail = [], elem(it)
         for v in seq:
@@ -1979,10 +1987,13 @@ def comp(e, fr):
     it = ev(gen.iter, fr)
     saved = copy_env(fr.env)
 
+    DROP = object()
+
     def run_one(v, rest):
         assign(gen.target, v, fr, e)
         for cond in gen.ifs:
-            ev(cond, fr)
+            if truth(ev(cond, fr)) is False:
+                return DROP
         if rest:
             sub = ast.ListComp(elt=e.elt, generators=rest)
             ast.copy_location(sub, e)
@@ -1999,14 +2010,22 @@ def comp(e, fr):
         items, tail = [], elem(it)
     out = [run_one(v, rest) for v in items]
     t = run_one(tail, rest) if tail is not None else None
+    if t is DROP:
+        t = None
     fr.env = saved
     if gen.ifs:
+        if tail is None and items and not rest:
+            # optimistic step (listed in evidence), the same one an unrolled loop with an undecided `if` around its append takes: items
+            # whose filter is not decided are kept, so the positions stay aligned with those of the iterated sequence
+            CTX.events.append(("assume", CTX.where(), "filtered comprehension over a literal sequence: undecided filters keep their item"))
+            return Lst([o for o in out if o is not DROP], None)
         # filtered: lengths unknown
         r = t
         for o in out:
-            r = join(r, o)
+            if o is not DROP:
+                r = join(r, o)
         return Lst([], r)
-    return Lst(out, t)
+    return Lst([o for o in out if o is not DROP], t)
 
 
 def attr(o, name, node, fr):
